@@ -290,6 +290,24 @@ func c18Concurrent(k c18Case) (*sched.Result, []explore.Finding, string) {
 	var finds []explore.Finding
 	order := ""
 	res := sched.Run(sched.Config{Prefix: k.Prefix, PoolFanout: true}, func() {
+		// every execution begins with one instance having been used and returned: whatever the library keeps in front of
+		// or behind its pools is in the same state at the start of each execution, in a long-running worker as in the
+		// fresh process of a replay
+		{
+			var p hash.Hash
+			if k.SHA256 {
+				p = hmacx.AcquireSHA256(c18Key(1))
+			} else {
+				p = hmacx.AcquireSHA1(c18Key(1))
+			}
+			p.Write(c18Chunk(1))
+			_ = p.Sum(nil)
+			if k.SHA256 {
+				hmacx.PutSHA256(p)
+			} else {
+				hmacx.PutSHA1(p)
+			}
+		}
 		for t := 0; t < k.Threads; t++ {
 			t := t
 			sched.Spawn(fmt.Sprintf("user%d", t), func() {
